@@ -457,9 +457,9 @@ PLANS = {
     "C11": [MIRI, M(["spawnstorm"], 4, 40), M(["readers"], 4, 40, seed_off=9), S(["refs", "lifecycle", "traffic"], 18000, 150000, mode="diff"), S(["refs", "kill"], 9000, 60000, build="none", seed_off=1000)],
     "C12": [MIRI, S(["faults"], 30000, 250000), S(["deadlock"], 15000, 100000), S(["faults"], 12000, 80000, build="none", seed_off=1000)],
     "C13": [MIRI, M(["general", "blocking", "deathrace"], 9, 90), S(["traffic", "timeouts", "kill", "faults", "lifecycle"], 12000, 100000, mode="diff"), S(["timeouts", "kill"], 9000, 60000, build="none", seed_off=1000)],
-    "C14": [S(["deadlock"], 48000, 400000, perts=(2, 4)), S(["deadlock"], 12000, 100000, mode="erased", seed_off=300)],
+    "C14": [M(["mutualask"], 4, 40), S(["deadlock"], 48000, 400000, perts=(2, 4)), S(["deadlock"], 12000, 100000, mode="erased", seed_off=300)],
     "C15": [MIRI, S(["deadlock"], 48000, 400000, perts=(2, 4), seed_off=500), S(["deadlock"], 12000, 100000, mode="erased", seed_off=800), S(["traffic", "faults"], 9000, 60000)],
-    "C16": [S(["traffic", "refs", "timeouts", "kill", "lifecycle", "backpressure", "idle", "faults"], 7500, 60000, mode="diff"), S(["refs", "traffic", "kill"], 6000, 40000, mode="diff", build="none", seed_off=1000)],
+    "C16": [M(["blocking"], 5, 30), S(["traffic", "refs", "timeouts", "kill", "lifecycle", "backpressure", "idle", "faults"], 7500, 60000, mode="diff"), S(["refs", "traffic", "kill"], 6000, 40000, mode="diff", build="none", seed_off=1000)],
     "C20": [MIRI, M(["readers"], 6, 60), M(["slow"], 2, 20, seed_off=5), S(["metrics", "traffic", "kill", "faults"], 15000, 120000)],
     "C17": [M(["blocking"], 8, 90), M(["general"], 6, 60, seed_off=77)],
     "C19": [{"engine": "gen", "actors": (60, 400), "rounds": (1, 3)}, S(["traffic", "faults"], 9000, 60000)],
@@ -483,7 +483,7 @@ FLOORS = {
     "C13": {"C13.one_per_failure": 1000, "C13.none_on_success": 1000, "C13.counter": 500},
     "C14": {"C14.detect": 1000},
     "C15": {"C15.sound": 3000, "C15.residue": 5000},
-    "C16": {"C16.equal_traces": 1000},
+    "C16": {"C16.equal_traces": 1000, "C16.blocking": 10},
     "C18": {"C18.equal_traces": 5000},
     "C19": {"C19.reply_value": 100, "C19.tell_log": 100, "C19.ask_no_log": 100, "C19.compile_errors": 15, "C19.tell_result": 1000, "C19.derive_state": 10},
     "C17": {"C17.deadline": 40, "C17.inside_runtime": 20, "C17.deprecated_ignores_timeout": 10, "C17.dead_actor": 60},
